@@ -121,6 +121,16 @@ def constant_value(expression, bindings=None):
                 expression.type.which_type
             )
     elif expression.which_expression == "function":
+        if expression.function.function in (
+            ir_data.FunctionMapping.UPPER_BOUND,
+            ir_data.FunctionMapping.LOWER_BOUND,
+        ):
+            # The value of a bound function is not a function of the value of its
+            # argument: it is computed by expression_bounds, which stores it in
+            # the type.
+            if expression.type.integer.modulus == "infinity":
+                return int(expression.type.integer.modular_value)
+            return None
         return _constant_value_of_function(expression.function, bindings)
     elif expression.which_expression == "field_reference":
         return None
